@@ -675,7 +675,21 @@ def g_resize(rng):
             ops.append({"op": "submit", "ex": "e", "task": t_ok(rng)})
             ops.append({"op": "wait", "futs": "all"})
     family = "plain"
-    if rng.random() < 0.15:
+    r0 = rng.random()
+    if r0 < 0.12:
+        # a resize interrupted while it waits for running jobs (its own UserWarning turned into an error), then retried
+        family = "interrupted_resize"
+        n0 = rng.randint(2, 5)
+        n1 = rng.choice([x for x in range(1, 7) if x != n0])
+        kw = {"max_workers": n0, "timeout": 100}
+        ops = [{"op": "new", "ex": "e", "kind": "reusable", "kw": kw}, {"op": "submit", "ex": "e", "task": t_ok(rng)}, {"op": "wait", "futs": "all"}]
+        for _ in range(n0):
+            ops.append({"op": "submit", "ex": "e", "task": t_sleep(rng, 0.2, 0.4)})
+        ops += [{"op": "get_reusable", "ex": "e", "kw": dict(kw, max_workers=n1), "warn_as_error": True},
+                {"op": "wait", "futs": "all"},
+                {"op": "get_reusable", "ex": "e", "kw": dict(kw, max_workers=n1), "resize": [n0, n1], "retry": True},
+                {"op": "submit", "ex": "e", "task": t_ok(rng)}, {"op": "wait", "futs": "all"}]
+    elif r0 < 0.27:
         # a worker added by a growing resize dies before anything else happens, then the pool is shrunk by one
         family = "new_worker_dies"
         n0 = rng.randint(1, 3)
@@ -780,7 +794,7 @@ def g_depth(rng):
     return {"threads": [ops], "end": "return"}, {"gen": "g_depth", "max_depth": maxd, "depth_to": depth_to, "fork_at": fork_at, "kind": kind, "env": env, "variants": variants}
 
 
-def g_fresh(rng):
+def g_fresh(rng, force_init=None, force_exc=None):
     """C18: canary descriptors, env overlays, initializer on every kind of worker arrival."""
     ctx = rng.choice(["loky", "loky", "loky", "loky_init_main"])
     kind = rng.choice(["plain", "reusable"])
@@ -789,7 +803,7 @@ def g_fresh(rng):
     overlay = {}
     for i in range(rng.randint(0, 3)):
         overlay[rng.choice(["LV_A", "LV_B", "PATH_EXTRA", "LV_EMPTY", "HOME"])] = rng.choice(["1", "x y", "", "/tmp/é".encode("ascii", "ignore").decode(), "a=b"])
-    init_variant = rng.choice(["none", "token", "token", "fail_nth", "leak0"])
+    init_variant = force_init or rng.choice(["none", "token", "token", "fail_nth", "leak0"])
     kw = {"max_workers": mw, "timeout": tmo}
     if ctx != "loky" or kind == "plain":
         kw["context"] = ctx
@@ -799,7 +813,7 @@ def g_fresh(rng):
     if init_variant == "token":
         kw["initializer"] = {"token": "T%d" % rng.randint(0, 9)}
     elif init_variant == "fail_nth":
-        kw["initializer"] = {"token": "T", "counter_file": counter, "fail_on": [rng.randint(1, mw + 2)]}
+        kw["initializer"] = {"token": "T", "counter_file": counter, "fail_on": [rng.randint(1, mw + 2)], "fail_exc": force_exc or rng.choice(["RuntimeError", "UserWarning", "SystemExit"])}
     elif init_variant == "leak0":
         kw["initializer"] = {"token": "L", "leak0": True}
     ops = []
@@ -818,6 +832,9 @@ def g_fresh(rng):
         ops.append({"op": "submit", "ex": "e", "task": {"k": "probe", "what": what}})
     ops.append({"op": "keeplists", "ex": "e"})
     ops.append({"op": "wait", "futs": "all"})
+    if rng.random() < 0.6:
+        # the parent's environment changes between two waves of spawns (a variable modified, one deleted, one added)
+        ops.append({"op": "setenv", "env": {"LV_PARENT": rng.choice(["p2", None]), "LV_A": None, "LV_LATE": "late", "LV_B": "parent-b"}})
     if tmo < 1:
         ops += [{"op": "sleep", "d": 4 * tmo}]
         for i in range(rng.randint(1, mw + 1)):
